@@ -251,6 +251,12 @@ func (s *session) tryToResume(sprint *sprint, waitingRun flows.Run, resume flows
 		return nil
 	}
 
+	// a flow which has since become a voice flow can't be resumed in a session which was started without a call
+	if !s.canContinue(waitingRun) {
+		failSession("can't resume run in voice flow without call")
+		return nil
+	}
+
 	if s.countWaits() >= s.engine.Options().MaxResumesPerSession {
 		failSession("reached maximum number of resumes per session (%d)", s.engine.Options().MaxResumesPerSession)
 		return nil
@@ -393,6 +399,8 @@ func (s *session) continueUntilWait(sprint *sprint, currentRun flows.Run, node f
 					// if flow for this run is a missing asset, we have a problem
 					if currentRun.Flow() == nil {
 						failRun(sprint, currentRun, nil, errors.New("can't resume run with missing flow asset"))
+					} else if !s.canContinue(currentRun) {
+						failRun(sprint, currentRun, nil, errors.New("can't resume run in voice flow without call"))
 					} else {
 						if exit, operand, err = s.findResumeExit(sprint, currentRun, false); err != nil {
 							failRun(sprint, currentRun, nil, fmt.Errorf("can't resume run as node no longer exists: %w", err))
@@ -559,6 +567,12 @@ func (s *session) ensureQueryBasedGroups(logEvent flows.EventCallback) {
 	if len(added) > 0 || len(removed) > 0 {
 		logEvent(events.NewContactGroupsChanged(added, removed))
 	}
+}
+
+// a run in a voice flow can only be continued if the session was triggered with a call - this is checked when a session
+// is triggered but the flow may have changed type since then
+func (s *session) canContinue(run flows.Run) bool {
+	return run.Flow().Type() != flows.FlowTypeVoice || s.trigger.Call() != nil
 }
 
 func (s *session) countWaits() int {
